@@ -41,6 +41,8 @@ func init() {
 			R06(),
 			R08(Only8("applyMutations")),
 			R28(),
+			R36(),
+			Only(R33(), fns("applyMutations", rpcMutateRows)),
 			Only(R07(), fns(rpcMutateRow, rpcMutateRows)),
 		},
 		Explanation: "Decides the structural part of C01. (1) Invalid requests are answered with an error instead of being stored: every cell insertion / range deletion in applyMutations is dominated by the family-known and timestamp-valid guards on the very values used (R08), the unknown-mutation default returns an error, and a row that went through the applier is written to the store only on the applier's nil edge (R06), with no application-error return reachable after a store (R07). (2) Every writer of Column.Cells re-establishes 'descending timestamps, one cell per timestamp', comparator and sort.Search predicates agree on the direction, families/columns are only constructed after a failed lookup (R28).",
@@ -52,6 +54,8 @@ func init() {
 		Rules: []Rule{
 			Only(R11(), fns("(*GcsEmu).finishUpload")),
 			R08(Only8("finishUpload")),
+			R34(),
+			R35(),
 			R29(),
 			Only(R16(5, core.PkgGcsemu, core.PkgGcsutil), fns(uploadFns...)),
 			Only(R01(nil), `uploadData\.`),
@@ -91,6 +95,7 @@ func init() {
 			Only(R13(4, core.PkgBttest), fns("filterRow", "filterCells", "includeCell", "modifyCell")),
 			Only(R09(), `^I1/`),
 			R19(Only19("filter")),
+			R36(),
 			R26(),
 			R08(Only8("ReadRows-filter-error")),
 		},
@@ -107,6 +112,8 @@ func init() {
 			R06(),
 			Only(R07(), fns(rpcMutateRow, rpcMutateRows, rpcCAM, rpcRMW)),
 			Only(R09(), `^I4/`),
+			Only(R33(), fns("applyMutations", rpcMutateRows, rpcRMW)),
+			R19(Only19("cam")),
 		},
 		Explanation: "Decides the three mechanisms C06 rests on. (i) Every access to table.rows anywhere holds table.mu in the mode the method needs, and in the four single-row write RPCs the row is fetched and written back under one uninterrupted write hold (R01 lockset on all paths, R02 epoch continuity, R04 balance). (ii) Rows.Get and the iterator hand out private deserialised copies and the store keeps private serialisations in both engines (R09-I4), so nothing is visible before the write-back. (iii) The write-back happens only on the applier's success edge and no application error is returned after it (R06, R07). Per-row linearizability then follows from the mutex.",
 		NotDecided: []string{"the values written; fairness; history-level linearizability is implied by, not checked beyond, the lock discipline"},
@@ -166,6 +173,7 @@ func init() {
 			R27(),
 			Only(R16(5, core.PkgGcsemu, core.PkgGcsutil), fns("(*GcsEmu).makeBucketListResults")),
 			Only(R14(20, core.PkgGcsemu, core.PkgGcsutil), fns("(*GcsEmu).makeBucketListResults")),
+			Only(R39(), fns("(*GcsEmu).makeBucketListResults")),
 		},
 		Explanation: "Decides (narrow): a malformed page token or maxResults is answered 400 and a missing bucket 404, each followed by return (R17); token encoder and decoder use the same alphabet and message field (R27); the enumeration order the cursor logic relies on must come from an ordered container keyed by the full name (R27 ordering contract); items resolved after the walk are nil-checked before use (R16/R14).",
 		NotDecided: []string{"completeness, duplicate-freedom, delimiter collapsing, maxResults cut-off, cursor arithmetic: all data dependent", "a page that holds only collapsed prefixes produces no nextPageToken (observed while reading; no structural rule decides it)"},
@@ -192,6 +200,8 @@ func init() {
 			Only(R02R03(), fns(rpcRMW)),
 			Only(R14(3, core.PkgBttest), fns(rpcRMW)),
 			Only(R09(), `^I4/.*/Get$`),
+			R37(),
+			Only(R33(), fns(rpcRMW)),
 		},
 		Explanation: "Decides the last sentence of C13: a rule naming an unknown family, or an increment on a value that is not 8 bytes long, fails the whole request and changes nothing — the family-known test dominates the cell insertion, len(prev)==8 dominates BigEndian.Uint64 (R08); all error returns precede the single ReplaceOrInsert (R07); the row edited is a private copy (R09-I4 Get) fetched and stored under one hold (R02); the newest-cell access is length-guarded (R14).",
 		NotDecided: []string{"increment/append arithmetic, timestamp arbitration, response contents: values"},
@@ -206,6 +216,8 @@ func init() {
 			R05(),
 			R08(Only8("live-families")),
 			Only(R21(), `^D2/`),
+			R38(),
+			Only(R33(), fns("(*server).ModifyColumnFamilies")),
 		},
 		Explanation: "Decides: all modifications of a ModifyColumnFamilies request or none — no mutation of the definition, the registry or the rows lies on a path to an application-error return, in any admin RPC (R07); the table registry is only touched under server.mu and definitions only under table.mu (R01/R04); definitions never escape unlocked into responses (R05); later writes to a dropped family are rejected because applyMutations and ReadModifyWriteRow test the live definition map, not a cached copy (R08 provenance); schema changes are persisted after the last mutation (R21-D2).",
 		NotDecided: []string{"prefix arithmetic of DropRowRange; that a purge removes exactly the dropped family's cells"},
@@ -221,6 +233,7 @@ func init() {
 			Only(R15(), `handleGcsCompose`, `handleGcsCopy`),
 			Only(R22(), `Copy`),
 			Only(R10(), `Copy`, `compose`),
+			Only(R33(), fns("(*GcsEmu).finishCompose")),
 		},
 		Explanation: "Decides: more than 32 sources is 400 and a missing source 404, and both change nothing — the bound check dominates every source read and the Add, every error return of finishCompose precedes its only Add (R08); sources are read and the destination written inside the destination's critical section (R11); the rewrite path split is length-checked on the value that is indexed (R14); a missing destination in the compose body and a missing source object are nil-checked (R16) and answered (R15); both stores' Copy clear TimeCreated and go through Add (R22); a copy does not share mutable metadata with its source in a way a later patch could write through (R10).",
 		NotDecided: []string{"concatenation order/content, metadata cloning details: values"},
@@ -244,6 +257,7 @@ func init() {
 		Rules: []Rule{
 			R09(),
 			R31(),
+			R40(),
 		},
 		Explanation: "Decides the sibling cross-check of the Rows implementations against the contract in storage.go: early stop on a false callback result (I1), range parameters in the right backend slots and delivered to the backend (I2), synchronous iteration (I3), private copies in and out (I4), same bytewise order (I5); the three Storage implementations construct only those Rows types, and Clear leaves an empty usable store in both (R31).",
 		NotDecided: []string{"response equality on generated programs: needs execution"},
@@ -257,6 +271,7 @@ func init() {
 			Only(R02R03(), fns(scanFns...)),
 			Only(R09(), `^I3/`, `^I4/`),
 			R31(),
+			Only(R16(5, core.PkgBttest), fns(scanFns...)),
 		},
 		Explanation: "Decides the three mechanisms C18 anchors: the scan holds table.mu (read) at every Rows access and at every use of the table definition, gives it up only around stream.Send and re-takes it on every path (R01, R04 incl. the reversal closure); it never writes a row back (R03); one backend iterator per range scan, created under the lock (R31); every row delivered is one freshly deserialised stored value, never shared with a writer, and iteration is synchronous (R09 I3/I4).",
 		NotDecided: []string{"that leveldb iterators are snapshots (library contract, trusted); order/duplicates under interleavings: histories"},
